@@ -197,3 +197,368 @@ def c01_cases(tier, seed):
         files = {l: {"big": S(*big), "small": S("s " + l, V("x"))} for l in many}
         cases.append(Case(Project("en", many, files), "c01_large/0", roles={"*": "large"}))
     return cases
+
+
+# =========================================================================================== C03
+def c03_cases(tier, seed):
+    rng = random.Random(3000 + seed)
+    others = ["fr", "de", "it"]
+    targets = [None, "en", "fr", "de", "it"]
+    maps = list(itertools.product(targets, repeat=3))
+    pres = list(itertools.product(["def", "null", "abs"], repeat=3))
+    combos = [(m, p) for m in maps for p in pres]
+    rng.shuffle(combos)
+    if tier == "quick":
+        # every inherits map once (125), presence patterns rotating
+        combos = [(m, pres[(i * 7 + seed) % len(pres)]) for i, m in enumerate(maps)]
+    cases = []
+    for ci, (m, p) in enumerate(combos):
+        inherits = {l: t for l, t in zip(others, m) if t is not None}
+        locales = ["en"] + others
+        if ci % 3 == 1:
+            locales = ["fr", "en", "it", "de"]          # default not first, other order
+        files = {l: {} for l in locales}
+
+        def put(l, key, pattern_state, value):
+            if pattern_state == "def":
+                files[l][key] = value
+            elif pattern_state == "null":
+                files[l][key] = NULL()
+
+        rot = lambda k: p[k % 3:] + p[:k % 3]
+        for l in ["en"]:
+            files[l]["v"] = S("v in en")
+            files[l]["i"] = S("i in en ", V("x"), " ", Cp("b", "c"))
+            files[l]["n"] = NUM(7)
+            files[l]["r"] = RANGE("u8", [([("exact", 0)], S("r0 en")), ("fallback", S("r_ en ", V("count")))])
+            files[l]["g"] = SUB({"x": S("g.x en"), "y": S("g.y en ", V("x")), "h": SUB({"z": S("g.h.z en")})})
+        for li, l in enumerate(others):
+            put(l, "v", p[li], S("v in " + l))
+            put(l, "i", rot(1)[li], S(Cp("b", "i in " + l), V("y")))
+            put(l, "n", rot(2)[li], NUM(100 + li) if li != 1 else S("n as text " + l))
+            put(l, "r", rot(1)[li], RANGE("u8", [([("bounds", 1, 3, True)], S("r1-3 " + l)), ("fallback", S("r_ " + l))]))
+            gs = rot(2)[li]
+            if gs == "def":
+                inner = {"x": S("g.x " + l)}
+                ys = p[(li + 1) % 3]
+                if ys == "def":
+                    inner["y"] = S("g.y " + l)
+                elif ys == "null":
+                    inner["y"] = NULL()
+                hs = p[(li + 2) % 3]
+                if hs == "def":
+                    inner["h"] = SUB({"z": S("g.h.z " + l)})
+                elif hs == "null":
+                    inner["h"] = NULL()
+                files[l]["g"] = SUB(inner)
+            elif gs == "null":
+                files[l]["g"] = NULL()
+        kind = "chain"
+        if any(inherits.get(l) == l for l in others):
+            kind = "self"
+        cases.append(Case(Project("en", locales, files, inherits=inherits), "c03_inherit/%d" % ci,
+                          roles={"*": "inherits:%s" % kind}))
+    return cases
+
+
+# =========================================================================================== C04
+import model as _model
+
+INT_TYPES_ALL = ["i8", "i16", "i32", "i64", "u8", "u16", "u32", "u64"]
+
+
+def boundary_values(ty):
+    if ty in _model.FLOAT_TYPES:
+        return [-2.5, -1.0, -0.0, 0.0, 0.5, 1.0, 2.5, 1e9]
+    lo, hi = _model.INT_RANGE[ty]
+    vals = {lo, lo + 1, 0, 1, 2, 5, hi - 1, hi}
+    if lo < 0:
+        vals |= {-1, -5}
+    return sorted(vals)
+
+
+def random_spec(rng, ty):
+    vals = boundary_values(ty)
+    is_f = ty in _model.FLOAT_TYPES
+    lo = None if is_f else _model.INT_RANGE[ty][0]
+    for _ in range(50):
+        k = rng.randrange(6)
+        a, b = sorted(rng.sample(vals, 2))
+        if k == 0:
+            return ("exact", rng.choice(vals))
+        if k == 1 and a < b and (is_f or b > lo):
+            return ("bounds", a, b, False)
+        if k == 2:
+            return ("bounds", a, b, True)
+        if k == 3 and (is_f or b > lo):
+            return ("bounds", None, b, False)
+        if k == 4:
+            return ("bounds", None, b, True)
+        if k == 5:
+            return ("bounds", a, None, False)
+    return ("exact", vals[0])
+
+
+def c04_cases(tier, seed):
+    rng = random.Random(4000 + seed)
+    cases = []
+    styles = [
+        {"range_syntax": "seq"}, {"range_syntax": "map"}, {"range_syntax": "mixed", "pipe": True},
+        {"range_syntax": "seq", "numeric_counts": True}, {"range_syntax": "seq", "bare_fallback": False, "pipe": True},
+        {"range_syntax": "map", "bare_fallback": False, "numeric_counts": True},
+    ]
+    types = INT_TYPES_ALL + ["f32", "f64", None]
+    per_type = 2 if tier == "quick" else 12
+    ci = 0
+    for ty in types:
+        for rep in range(per_type):
+            style = styles[(ci + rep) % len(styles)]
+            files = {"en": {}, "fr": {}}
+            roles = {}
+            ety = ty or "i32"
+            for k in range(5):
+                nb = rng.randrange(1, 5)
+                branches = []
+                for b in range(nb):
+                    nspec = 1 if rng.random() < 0.6 else rng.randrange(2, 4)
+                    specs = [random_spec(rng, ety) for _ in range(nspec)]
+                    txt = S("r%d.%d " % (k, b), V("count"), " items") if (k + b) % 2 == 0 else S("r%d.%d fixed" % (k, b))
+                    branches.append((specs, txt))
+                branches.append(("fallback", S("r%d.else " % k, V("count")) if k % 2 else S("r%d.else" % k)))
+                files["en"]["r%d" % k] = RANGE(ty, branches)
+                # other locale: same type, other branches (order reversed -> overlapping branches in another order)
+                fb = [(s, S("fr " + v[1][0][1])) for s, v in reversed(branches[:-1])] + [("fallback", S("fr else"))]
+                files["fr"]["r%d" % k] = RANGE(ty, fb)
+                roles[(None, ("r%d" % k,))] = "range:%s" % ety
+                # parse-time selection through a foreign key with a literal count, and renaming
+                vals = boundary_values(ety)
+                n = vals[(k * 3 + rep) % len(vals)]
+                if ety in _model.FLOAT_TYPES and n == 1e9:
+                    n = 2.5
+                for l in ("en", "fr"):
+                    files[l]["f%d" % k] = S("<", FK("r%d" % k, {"count": NUM(n)}), ">")
+                    files[l]["g%d" % k] = S(FK("r%d" % k, {"count": S(V("n"))}), " end")
+                roles[(None, ("f%d" % k,))] = "range_fk_literal_count:%s" % ety
+                roles[(None, ("g%d" % k,))] = "range_fk_renamed_count:%s" % ety
+            cases.append(Case(Project("en", ["en", "fr"], files, style=style), "c04_ranges/%s/%d" % (ety, rep), roles=roles))
+            ci += 1
+    # integer ranges without fallback that cover the whole type
+    for ty in INT_TYPES_ALL:
+        lo, hi = _model.INT_RANGE[ty]
+        files = {"en": {
+            "full": RANGE(ty, [([("bounds", None, 0, True)], S("<=0")), ([("bounds", 1, None, False)], S(">=1 ", V("count")))]),
+            "ends": RANGE(ty, [([("exact", lo)], S("min")), ([("exact", hi)], S("max")), ([("bounds", lo + 1, hi, False)], S("mid"))]),
+        }}
+        cases.append(Case(Project("en", ["en"], files), "c04_nofallback/%s" % ty, roles={"*": "range_no_fallback:%s" % ty}))
+    return cases
+
+
+# =========================================================================================== C05
+PLURAL_LOCALES = ["en", "fr", "ru", "ar", "pl", "ja", "cy"]
+
+
+def c05_cases(tier, seed):
+    rng = random.Random(5000 + seed)
+    forms5 = ["zero", "one", "two", "few", "many"]
+    subsets = []
+    for r in range(0, 6):
+        for c in itertools.combinations(forms5, r):
+            subsets.append(list(c) + ["other"])
+    subsets = [s for s in subsets if len(s) >= 2]      # a lone _other is not a plural
+    rng.shuffle(subsets)
+    cases = []
+    nproj = 8 if tier == "quick" else 40
+    for pi in range(nproj):
+        default = PLURAL_LOCALES[pi % len(PLURAL_LOCALES)]
+        rest = [l for l in PLURAL_LOCALES if l != default]
+        locales = [default] + [rest[(pi + 1) % len(rest)], rest[(pi + 3) % len(rest)]]
+        files = {l: {} for l in locales}
+        roles = {}
+        for k in range(4):
+            rule = "ordinal" if (pi + k) % 3 == 0 else "cardinal"
+            for li, l in enumerate(locales):
+                sub = subsets[(pi * 4 + k + li * 5) % len(subsets)]
+                forms = {}
+                for f in sub:
+                    forms[f] = S("%s p%d %s " % (l, k, f), V("count")) if (k + li) % 2 == 0 else S("%s p%d %s" % (l, k, f), Cp("b", V("count")))
+                files[l]["p%d" % k] = PLURAL(rule, forms)
+                n = [0, 1, 2, 3, 5, 11, 21, 100, 1.5][(pi + k + li) % 9]
+                files[l]["f%d" % k] = S("[", FK("p%d" % k, {"count": NUM(n)}), "]")
+                files[l]["g%d" % k] = S(FK("p%d" % k, {"count": S(" ", V("n"), " ")}))
+            roles[(None, ("p%d" % k,))] = "plural:%s" % rule
+            roles[(None, ("f%d" % k,))] = "plural_fk_literal_count:%s" % rule
+            roles[(None, ("g%d" % k,))] = "plural_fk_renamed_count:%s" % rule
+        cases.append(Case(Project(default, locales, files), "c05_plurals/%d" % pi, roles=roles))
+    # inside subkeys and namespaces; plural that only exists in one locale (string elsewhere)
+    files = {l: {"grp": SUB({"p": PLURAL("cardinal", {"one": S(l + " one"), "other": S(l + " other ", V("count"))}),
+                              "q": S(l + " q")}),
+                 "mix": (PLURAL("ordinal", {"one": S("1st"), "two": S("2nd"), "few": S("3rd"), "other": S(V("count"), "th")}) if l == "en" else S(l + " no plural"))}
+             for l in ["en", "fr"]}
+    cases.append(Case(Project("en", ["en", "fr"], files), "c05_nested/0", roles={"*": "plural_nested"}))
+    # errors: mixing cardinal and ordinal forms under one key; colliding with an existing key
+    bad1 = Project("en", ["en"], {"en": {"k_one": S("a"), "k_ordinal_other": S("b"), "k_other": S("c"), "k_ordinal_one": S("d")}})
+    # print_map writes keys verbatim: cardinal `k` gets one/other, ordinal `k` gets one/other -> two plurals -> same key `k`
+    cases.append(Case(bad1, "c05_errors/two_rule_types_same_key", expect="error", roles={"*": "plural_conflict"}))
+    bad2 = Project("en", ["en"], {"en": {"k": S("plain"), "k_one": S("a"), "k_other": S("b")}})
+    cases.append(Case(bad2, "c05_errors/collides_with_key", expect="error", roles={"*": "plural_collision"}))
+    return cases
+
+
+# =========================================================================================== C06
+def c06_targets(l):
+    """Target keys of every kind, text marked with the locale."""
+    return {
+        "t_lit": S(l + " plain"),
+        "t_num": NUM(5),
+        "t_neg": NUM(-3),
+        "t_float": NUM(2.5),
+        "t_bool": ("bool", True),
+        "t_var": S(l + " hello ", V("name"), " and ", V("other"), "."),
+        "t_comp": S(Cp("b", l + " bold ", V("name")), " tail"),
+        "t_range": RANGE("u8", [([("exact", 0)], S(l + " none")), ([("bounds", 1, 5, False)], S(l + " few ", V("count"))),
+                                ("fallback", S(l + " many ", V("count"), " for ", V("name")))]),
+        "t_frange": RANGE("f64", [([("bounds", 0.0, 1.0, False)], S(l + " part")), ("fallback", S(l + " whole ", V("count")))]),
+        "t_plural": PLURAL("cardinal", {"one": S(l + " one item"), "other": S(l + " ", V("count"), " items of ", V("name"))}),
+        "grp": SUB({"leaf": S(l + " grp.leaf ", V("name")), "deep": SUB({"leaf": S(l + " grp.deep.leaf")})}),
+    }
+
+
+ARG_KINDS = [
+    ("str", lambda: S("ARG")),
+    ("num", lambda: NUM(56)),
+    ("neg", lambda: NUM(-4)),
+    ("float", lambda: NUM(1.5)),
+    ("bool", lambda: ("bool", False)),
+    ("interp", lambda: S("value: ", V("new_arg"))),
+    ("nested_fk", lambda: S("nested ", FK("t_lit"))),
+    ("nested_fk_args", lambda: S(FK("t_var", {"name": S("N"), "other": S(V("o2"))}))),
+    ("comp_in_arg", lambda: S(Cp("i", "em"))),
+]
+
+
+def c06_cases(tier, seed):
+    rng = random.Random(6000 + seed)
+    cases = []
+    targets = ["t_lit", "t_num", "t_neg", "t_float", "t_bool", "t_var", "t_comp", "grp.leaf", "grp.deep.leaf"]
+
+    def base(locales):
+        return {l: c06_targets(l) for l in locales}
+
+    # ---- every target kind x every argument kind, referencing key before / after the target in key order
+    ci = 0
+    for ai, (aname, mk) in enumerate(ARG_KINDS):
+        locales = ["en", "fr"] if ai % 2 == 0 else ["en", "fr", "de"]
+        files = base(locales)
+        roles = {}
+        for ti, t in enumerate(targets):
+            for prefix in ("a_", "z_"):
+                key = "%sref%d" % (prefix, ti)
+                for l in locales:
+                    files[l][key] = S("[", FK(t, {"name": mk(), "unused": S("dropped")}), "]")
+                roles[(None, (key,))] = "fk_%s_to_%s" % (aname, t.replace(".", "_"))
+        cases.append(Case(Project("en", locales, files, style=STYLES[ai % len(STYLES)] if ai % 3 else {"fk_spaces": True}),
+                          "c06_args/%s" % aname, roles=roles))
+        ci += 1
+    # ---- counts: literal / renamed, on ranges and plurals, with other args at the same time
+    for rep, (cnt, cname) in enumerate([(NUM(0), "lit0"), (NUM(3), "lit3"), (NUM(200), "lit200"), (S(V("n")), "rename"), (S(" ", V("n"), " "), "rename_ws")]):
+        files = base(["en", "fr"])
+        roles = {}
+        for l in ("en", "fr"):
+            files[l]["c_range"] = S("R:", FK("t_range", {"count": cnt, "name": S("NM")}))
+            files[l]["c_plural"] = S("P:", FK("t_plural", {"count": cnt, "name": S(V("who"))}))
+            files[l]["c_range_only_name"] = S(FK("t_range", {"name": S("just name")}))
+            if cnt[0] == "num":
+                files[l]["c_frange"] = S("F:", FK("t_frange", {"count": NUM(float(cnt[1]) / 4)}))
+            else:
+                files[l]["c_frange"] = S("F:", FK("t_frange", {"count": cnt}))
+        for k in ("c_range", "c_plural", "c_range_only_name", "c_frange"):
+            roles[(None, (k,))] = "fk_count_%s" % cname
+        cases.append(Case(Project("en", ["en", "fr"], files), "c06_counts/%s" % cname, roles=roles))
+    # ---- chains of references (depth 3), arguments travelling through the chain, references inside plural forms / range branches
+    def chain_files(which):
+        files = base(["en", "fr"])
+        for l in ("en", "fr"):
+            f = files[l]
+            if which == "chains":
+                f["ch1"] = S(l + " c1 ", FK("t_var", {"name": S(V("who"))}))
+                f["ch2"] = S(l + " c2 ", FK("ch1", {"who": S("W"), "other": S("O")}))
+                f["ch3"] = S(l + " c3 ", FK("ch2"), " ", FK("t_lit"))
+            elif which == "args_through_chain":
+                f["x_inner"] = S(l + " inner ", V("v"))
+                f["x_mid"] = S(l + " mid ", FK("x_inner"))
+                f["x_outer"] = S(FK("x_mid", {"v": S("V!")}))
+            elif which == "fk_inside_plural":
+                f["pl"] = PLURAL("cardinal", {"one": S("one ", FK("t_lit")), "other": S(FK("t_var", {"name": S(V("count"))}))})
+            elif which == "fk_inside_range":
+                f["rg"] = RANGE("u8", [([("exact", 1)], S(FK("t_comp", {"name": S("one")}))), ("fallback", S(FK("t_range", {"count": S(V("count"))})))])
+            elif which == "two_counts":
+                f["two"] = S(FK("t_plural", {"count": S(V("a"))}), " / ", FK("t_plural", {"count": S(V("b"))}))
+        return files
+    for which in ("chains", "args_through_chain", "fk_inside_plural", "fk_inside_range", "two_counts"):
+        cases.append(Case(Project("en", ["en", "fr"], chain_files(which)), "c06_%s/0" % which, roles={"*": which}))
+    # ---- targets that are null / inherited in the referencing locale
+    for ii, inherits in enumerate([{}, {"de": "fr"}, {"de": "fr", "fr": "en"}, {"fr": "de", "de": "fr"}]):
+        locales = ["en", "fr", "de"]
+        files = base(locales)
+        roles = {}
+        files["de"]["t_lit"] = NULL()
+        files["de"]["t_var"] = NULL()
+        files["fr"]["t_comp"] = NULL()
+        for l in locales:
+            files[l]["n_lit"] = S("ref:", FK("t_lit"))
+            files[l]["n_var"] = S("ref:", FK("t_var", {"name": S("NM")}))
+            files[l]["n_comp"] = S("ref:", FK("t_comp"))
+        roles[(None, ("n_lit",))] = "fk_to_null_target" + ("_inherits" if inherits else "")
+        roles[(None, ("n_var",))] = "fk_to_null_target" + ("_inherits" if inherits else "")
+        roles[(None, ("n_comp",))] = "fk_to_null_target" + ("_inherits" if inherits else "")
+        cases.append(Case(Project("en", locales, files, inherits=inherits), "c06_null_target/%d" % ii, roles=roles))
+    # ---- cross-namespace
+    nsf = {"common": {l: c06_targets(l) for l in ("en", "fr")}, "home": {l: {} for l in ("en", "fr")}}
+    roles = {}
+    for l in ("en", "fr"):
+        nsf["home"][l]["a"] = S("home:", FK("common:t_var", {"name": S("X")}))
+        nsf["home"][l]["b"] = S(FK("common:grp.deep.leaf"), FK("home:a"))
+        nsf["home"][l]["c"] = S(FK("common:t_plural", {"count": NUM(1)}))
+        nsf["common"][l]["back"] = S(FK("home:b"))
+    cases.append(Case(Project("en", ["en", "fr"], nsf, namespaces=["common", "home"]), "c06_namespaces/0", roles={"*": "cross_namespace"}))
+    # ---- rejected: unresolved, subkey group, cycles
+    def bad(name, extra, role):
+        files = {"en": dict(c06_targets("en"))}
+        files["en"].update(extra)
+        cases.append(Case(Project("en", ["en"], files), "c06_errors/" + name, expect="error", roles={"*": role}))
+    bad("unresolved", {"r": S(FK("nope"))}, "unresolved")
+    bad("unresolved_subkey", {"r": S(FK("grp.nope"))}, "unresolved")
+    bad("subkey_group", {"r": S(FK("grp"))}, "subkey_group")
+    bad("subkey_group_deep", {"r": S(FK("grp.deep"))}, "subkey_group")
+    bad("self_cycle", {"r": S("x ", FK("r"))}, "cycle")
+    bad("two_cycle", {"r": S(FK("s")), "s": S(FK("r"))}, "cycle")
+    bad("three_cycle", {"r": S(FK("s")), "s": S(FK("u")), "u": S("u ", FK("r"))}, "cycle")
+    bad("cycle_through_arg", {"r": S(FK("t_var", {"name": S(FK("r"))}))}, "cycle")
+    bad("namespace_in_plain_project", {"r": S(FK("common:t_lit"))}, "unresolved")
+    return cases
+
+
+# =========================================================================================== C02
+def c02_cases(tier, seed):
+    """Every kind of key once more, decided flavour against flavour (no reference involved)."""
+    cases = []
+    c1 = c01_cases(tier, seed)
+    cases += c1[: (12 if tier == "quick" else len(c1))]
+    cases += [c for c in c1 if c.tag.startswith(("c01_literals", "c01_subkeys", "c01_namespaces"))][:6]
+    c4 = c04_cases(tier, seed)
+    cases += c4[:: (3 if tier == "quick" else 1)]
+    c5 = [c for c in c05_cases(tier, seed) if c.expect == "ok"]
+    cases += c5[:: (2 if tier == "quick" else 1)]
+    c6 = [c for c in c06_cases(tier, seed) if c.expect == "ok"]
+    cases += c6[:: (3 if tier == "quick" else 1)]
+    c3 = c03_cases(tier, seed)
+    cases += c3[:: (12 if tier == "quick" else 5)]
+    seen = set()
+    out = []
+    for c in cases:
+        if id(c) in seen:
+            continue
+        seen.add(id(c))
+        c.tag = "c02:" + c.tag
+        out.append(c)
+    return out
